@@ -247,6 +247,14 @@ class Pool(object):
                 p_, e_ = cd["vals"][k]
                 cd["vals"][k] = (p_, e_ + 24.0 * cd["kT"])
         self.inputs.append(cd)
+        # THz: attempt frequencies as a user working in SI units enters them (all transition prefactors x 1e13):
+        # rates and coefficients ~1e12 in absolute terms, the other end of the absolute scale
+        hz = clone(b0, "thz")
+        for k in list(hz["vals"]):
+            if k[0] in ("omega0", "omega1", "omega2"):
+                p_, e_ = hz["vals"][k]
+                hz["vals"][k] = (p_ * 1e13, e_)
+        self.inputs.append(hz)
         if nwyckoff > 1:
             # differs only in one vacancy-site energy (catches keys that ignore a field)
             w = clone(b0, "one-site-energy")
